@@ -1,6 +1,7 @@
 #!/usr/bin/env python3
 import subprocess,re
-t=subprocess.check_output(['/verif/tools/mk_round2_table.py']).decode()
 s=open('/verif/DESIGN.md').read()
-s=re.sub(r'<!-- ROUND2-TABLE-BEGIN -->.*?<!-- ROUND2-TABLE-END -->','<!-- ROUND2-TABLE-BEGIN -->\n'+t.replace('\\','\\\\')+'\n<!-- ROUND2-TABLE-END -->',s,flags=re.S)
+for R in ('2','3'):
+    t=subprocess.check_output(['/verif/tools/mk_round2_table.py',R]).decode()
+    s=re.sub(r'<!-- ROUND%s-TABLE-BEGIN -->.*?<!-- ROUND%s-TABLE-END -->'%(R,R),lambda m:'<!-- ROUND%s-TABLE-BEGIN -->\n'%R+t+'\n<!-- ROUND%s-TABLE-END -->'%R,s,flags=re.S)
 open('/verif/DESIGN.md','w').write(s)
